@@ -134,6 +134,101 @@ def t_step(repo, specs, fx, fy, q):
     return fn
 
 
+RECOVER = Settings(float_mode="real", name_deep_terms=5)
+
+
+def t_recover(repo, specs, h, invert_j, flip_ij):
+    """Part B, composed over the h iterations (the induction, unrolled at the concrete level h with ghost assertions):
+    for ARBITRARY shifted digits D[0..h-1] in 0..3, the anchor offset computed by the second loop of _s_to_anchor plus any
+    centre displacement d allowed by part C is turned back into exactly D by the first loop of _ij_to_s.
+
+    Ghost code (sidecar): the offset-accumulation loop records the flip state G[i] it had before digit i; the harness
+    defines the tails tail[0] = d, tail[i+1] = c(D[i], G[i]) * 2^i + tail[i] and proves bottom-up that tail[i+1] lies in
+    2^i * Tri(G[i]) with margin 1/10 (the step lemma, now with symbolic flips and digit); before iteration i of the
+    recovery loop it is asserted that the flip state is G[i] and input - pivot is tail[i+1], after it that the digit
+    found is D[i]."""
+    from ..pyvc.interp_stmt import Frame as F_
+    from fractions import Fraction
+
+    def fn(ctx):
+        it = Interp(ctx, repo, registry(), specs)
+        ops = it.ops
+        D = [ops.int_var("d%d" % k) for k in range(h)]
+        for dk in D:
+            ctx.assume(zand(dk >= 0, dk <= 3))
+        inputs = {"d%d" % k: D[k] for k in range(h)}
+        mod, f1, _ = repo.function(S2A)
+        i1 = first_for(f1)
+        fr = F_(mod, f1, S2A, {"s": 0, "resolution": h, "invert_j": invert_j, "flip_ij": flip_ij})
+        it.exec_block(fr, f1.body[:i1])
+        if len(fr.locals["digits"]) != h:
+            ctx.oblige("digit-list-has-h-digits", False, None, "post")
+            return inputs
+        fr.locals["digits"] = list(D)
+        G = {}
+
+        def rec(itp, frame, i, phase):
+            if phase == "pre":
+                G[i] = tuple(frame.locals["flips"])
+        loop2 = [st for st in f1.body[i1 + 1:] if isinstance(st, ast.For)]
+        it.loop_hooks = {(S2A, fr.loops.index(loop2[0])): rec} if loop2 else {}
+        anchor = None
+        try:
+            it.exec_block(fr, f1.body[i1 + 1:])
+        except _Return as r:
+            anchor = r.value
+        if anchor is None or len(G) != h:
+            ctx.oblige("offset-loop-shape", False, None, "post")
+            return inputs
+        a0, a1 = anchor.attrs["offset"]
+        GF = anchor.attrs["flips"]
+        d0, d1 = z3.Real("dx"), z3.Real("dy")
+        inputs.update({"dx": d0, "dy": d1})
+        eps = Fraction(1, 10)
+        # part C: the centre displacement lies in the half-unit triangle of the final flip state, margin 1/10
+        ctx.assume(it.eval_formula("IN_INSET_TRI(fx, fy, d0, d1, half, eps)", {"fx": GF[0], "fy": GF[1], "d0": d0, "d1": d1,
+                                                                                  "half": Fraction(1, 2), "eps": eps}))
+        # ghost tails and their regions, bottom-up
+        tail = [(d0, d1)]
+        for i in range(h):
+            c = it.call(KJ2IJ, it.call(Q2KJ, D[i], G[i]))
+            sc = 2 ** i
+            t0 = ops.binop("+", ops.binop("*", c[0], sc, "ghost"), tail[i][0], "ghost")
+            t1 = ops.binop("+", ops.binop("*", c[1], sc, "ghost"), tail[i][1], "ghost")
+            t0, t1 = it.name_term(ops.lift_real(t0), "tail"), it.name_term(ops.lift_real(t1), "tail")
+            tail.append((t0, t1))
+            ctx.oblige("tail-%d-in-its-triangle(2^%d*Tri(G[%d]))" % (i + 1, i, i),
+                       it.eval_formula("IN_INSET_TRI(fx, fy, t0, t1, S, eps)", {"fx": G[i][0], "fy": G[i][1], "t0": t0, "t1": t1, "S": sc, "eps": eps}),
+                       None, "ghost-lemma")
+        # the recovery loop of _ij_to_s
+        mod2, f2, _ = repo.function(IJ2S)
+        i2 = first_for(f2)
+        u_in = ops.binop("+", a0, d0, "ghost")
+        v_in = ops.binop("+", a1, d1, "ghost")
+        fr2 = F_(mod2, f2, IJ2S, {"input_ij": (u_in, v_in), "invert_j": invert_j, "flip_ij": flip_ij, "resolution": h})
+
+        def hook(itp, frame, i, phase):
+            loc = frame.locals
+            if phase == "pre":
+                fl, pv = loc["flips"], loc["pivot"]
+                ctx.oblige("recover-step-%d: flip state is the one the offset loop had" % i,
+                           zand(zbool(ops.equal(fl[0], G[i][0])), zbool(ops.equal(fl[1], G[i][1]))), None, "ghost-assert")
+                fl[0], fl[1] = G[i][0], G[i][1]
+                r0 = ops.binop("-", u_in, pv[0], "ghost")
+                r1 = ops.binop("-", v_in, pv[1], "ghost")
+                ctx.oblige("recover-step-%d: input - pivot is the ghost tail" % i,
+                           zand(zbool(ops.equal(r0, tail[i + 1][0])), zbool(ops.equal(r1, tail[i + 1][1]))), None, "ghost-assert")
+            else:
+                dg = loc["digits"]
+                ctx.oblige("recover-step-%d: the digit found is D[%d]" % (i, i), zbool(ops.equal(dg[i], D[i])), None, "ghost-assert")
+                dg[i] = D[i]
+        it.loop_hooks = {(IJ2S, fr2.loops.index(f2.body[i2])): hook}
+        it.exec_block(fr2, f2.body[:i2 + 1])
+        ctx.cover("recovery hypotheses")
+        return inputs
+    return fn
+
+
 S2A_W = "a5.core.hilbert.s_to_anchor"
 IJ2S_W = "a5.core.hilbert.ij_to_s"
 GPV = "a5.core.tiling.get_pentagon_vertices"
@@ -195,6 +290,11 @@ def tasks(tier):
         for cname, (inv, flip) in CLASSES.items():
             out.append(PTask("C18/A/digits[h=%d,%s]" % (h, cname), t_digits(repo, specs, h, inv, flip), [S2A, IJ2S, "a5.core.hilbert._shift_digits"],
                              deciding=True, replay_kind="hilbert", timeout_ms=300000, settings=DIGITS))
+    rec_levels = range(1, 29) if tier == "thorough" else (1, 2, 3, 4, 5, 6, 7, 8, 9, 10, 14, 18, 22, 26, 28)
+    for h in rec_levels:
+        for cname, (inv, flip) in CLASSES.items():
+            out.append(PTask("C18/B/recover[h=%d,%s]" % (h, cname), t_recover(repo, specs, h, inv, flip), [S2A, IJ2S, IJ2Q, Q2KJ, KJ2IJ, Q2F],
+                             deciding=True, replay_kind="hilbert", timeout_ms=300000, settings=RECOVER))
     for o in ORIENTATIONS:
         for h in range(1, 29):
             out.append(PTask("C18/C/base[%s,h=%d]" % (o, h), t_base(repo, specs, o, h), [S2A_W, IJ2S_W, GPV, F2IJ, "a5.geometry.pentagon.PentagonShape.get_center"],
@@ -210,7 +310,8 @@ def tasks(tier):
 ASSUMPTIONS = BASE_TRUSTED + [
     "A6: binary64 arithmetic in the lattice functions (parts B, C) is treated as exact real arithmetic: float literals and table entries enter as their exact rational values; pivots are integers < 2^53 and scalings are by powers of two; backed by the proved margin 1/10 >> accumulated rounding",
     "part A: Python ints are 80-bit bit-vectors with no-wrap obligations (most discharged by a sound interval pre-analysis); levels 1..28 and the three (invert_j, flip_ij) classes are the whole domain, every loop is unrolled at its concrete length",
-    "part B: the inductive step of the digit-recovery loop is proved for all scales and margins of the domain; the induction itself (composition over the h iterations, Tri region of the tail) is NOT mechanised: it is covered by a bounded native round-trip check (labelled bounded, not counted)",
+    "part B: the inductive step is proved for all scales of the domain, and its composition over the h iterations (ghost tails, region claims bottom-up, per-iteration assertions in the recovery loop) is proved for arbitrary digit strings per level and orientation class - every level 1..28 in the thorough tier, levels 1..10, 14, 18, 22, 26, 28 in the quick tier; part C is used as the base hypothesis (centre displacement in the half-unit triangle of the final flip state)",
+    "the bounded native round trip (levels 1..5 exhaustive, directed / random to level 28) is kept as an additional labelled stand-in and is not counted",
     "not claimed: the clause that the first level-k digits identify the level-k ancestor cell (the lattice triangles of the pinned code do not nest that way)",
 ]
 
